@@ -80,7 +80,9 @@ def gen(rng, i, tier):
         phase_conf=0.4, rails=rng.choice([0.0, 0.4]),
     )
     spec, causes = plant(rng, base)
-    return {"spec": spec, "tol": 1e-6, "ta": 25.0, "causes": causes}
+    case = {"spec": spec, "tol": 1e-6, "ta": 25.0, "causes": causes}
+    case.update(_rows.random_call_context(rng))
+    return case
 
 
 def supply_live(spec, rows, phase):
